@@ -446,15 +446,18 @@ def ambiguous_encodings(repo, rep, prims):
         for f in upd:
             sn = f.params[0]
             for n in walk_local_stmt(f.node):
-                if isinstance(n, ast.If) and isinstance(n.test, ast.Compare) and isinstance(n.test.left, ast.Attribute) and isinstance(n.test.left.value, ast.Name) \
-                        and n.test.left.value.id == sn and len(n.test.ops) == 1 and isinstance(n.test.ops[0], ast.Eq) and isinstance(n.test.comparators[0], ast.Constant) \
-                        and isinstance(n.test.comparators[0].value, str):
+                if not (isinstance(n, ast.If) and isinstance(n.test, ast.Compare) and len(n.test.ops) == 1 and isinstance(n.test.ops[0], ast.Eq)):
+                    continue
+                sides = [n.test.left, n.test.comparators[0]]
+                attr_side = next((x for x in sides if isinstance(x, ast.Attribute) and isinstance(x.value, ast.Name) and x.value.id == sn), None)
+                const_side = next((x for x in sides if isinstance(x, ast.Constant) and isinstance(x.value, str)), None)
+                if attr_side is not None and const_side is not None:
                     keeps_str = any(isinstance(x, ast.Call) and isinstance(x.func, ast.Name) and x.func.id == "isinstance" and "basestring" in ast.unparse(x) or
                                     (isinstance(x, ast.Call) and isinstance(x.func, ast.Name) and x.func.id == "isinstance" and "str" in ast.unparse(x.args[1]))
                                     for b in n.body for x in ast.walk(b))
                     converts = any(isinstance(x, ast.Call) and (call_name(x) or "").split(".")[-1] in ("floatOrNan", "float") for b in n.orelse for x in ast.walk(b))
                     if keeps_str and converts:
-                        tag = n.test.left.attr
+                        tag = attr_side.attr
         if tag is None:
             continue
         rd = repo.own_method(c, "fromJsonFragment")
